@@ -684,17 +684,20 @@ impl BoardMonitor for C15 {
             gen[move_index(*mv)] = true;
         }
         let model_legal = m.legal_moves();
+        let mut model_set = vec![false; 28672];
+        for mv in &model_legal {
+            model_set[move_index(mv.lib())] = true;
+        }
         let text0 = guard(|| format!("{:#}", b)).unwrap_or_default();
         let mut scratch = b.clone();
         cx.evals(28672);
         for (i, &mv) in self.all.iter().enumerate() {
             let rm = RMove::of(mv);
-            let is_model_legal = model_legal.contains(&rm);
-            let want_ok = gen[i];
-            if want_ok != is_model_legal {
-                // C01's business; do not double report here, but do not assert either
-                cx.count("skipped:generator-and-model-disagree(C01)");
-                continue;
+            // the oracle is the rule book (the reference model's legal set), not the library's own
+            // generator: checked play must succeed exactly on the legal moves
+            let want_ok = model_set[i];
+            if want_ok != gen[i] {
+                cx.count("generator-and-model-disagree(see C01)");
             }
             let r = guard(|| scratch.try_play(mv));
             match r {
